@@ -365,4 +365,107 @@ theorem rescale_no_nonvoting (t : Dec) (bonded : Int) (hb : 0 < bonded) : rescal
 example : power (Dec.ofInt 3) { addr := "a0", bonded := 6, shares := Dec.ofInt 6 } = Dec.ofInt 3 :=
   power_eq_shares_of_unslashed _ _ (by decide) rfl
 
+/-! ## 6. non-voting delegations add nothing to what voters contribute -/
+
+/-- relation between the run on the full graph and the run on the graph without the share-class delegations -/
+def SameVotes (s s' : GovTally.Acc) : Prop := s.ballots = s'.ballots ∧ s.vote = s'.vote
+
+theorem stepDel_same (vs : List Val) (voter : String) (opts : List WOpt) (s s' : GovTally.Acc) (d : Deleg)
+    (h : SameVotes s s') : SameVotes (stepDel vs voter opts s d) (stepDel vs voter opts s' d) := by
+  unfold stepDel
+  by_cases hd : d.delegator ≠ voter
+  · rw [if_pos hd, if_pos hd]; exact h
+  · rw [if_neg hd, if_neg hd]
+    cases look vs d.validator with
+    | none => exact h
+    | some v => exact ⟨by simp only [h.1], h.2⟩
+
+theorem inner_without (sc : String) (vs : List Val) (voter : String) (opts : List WOpt) (hv : voter ≠ sc) :
+    ∀ (ds : List Deleg) (s s' : GovTally.Acc), SameVotes s s' →
+      SameVotes (ds.foldl (stepDel vs voter opts) s) ((withoutSC sc ds).foldl (stepDel vs voter opts) s') := by
+  intro ds
+  induction ds with
+  | nil => intro s s' h; exact h
+  | cons d l ih =>
+    intro s s' h
+    by_cases hd : d.delegator = sc
+    · have hne : d.delegator ≠ voter := fun e => hv (e.symm.trans hd)
+      have e1 : stepDel vs voter opts s d = s := by unfold stepDel; rw [if_pos hne]
+      have e2 : withoutSC sc (d :: l) = withoutSC sc l := by simp [withoutSC, List.filter_cons, hd]
+      rw [List.foldl_cons, e1, e2]
+      exact ih s s' h
+    · have e2 : withoutSC sc (d :: l) = d :: withoutSC sc l := by simp [withoutSC, List.filter_cons, hd]
+      rw [List.foldl_cons, e2, List.foldl_cons]
+      exact ih _ _ (stepDel_same vs voter opts s s' d h)
+
+theorem step1_same (sc : String) (vs : List Val) (s : GovTally.Acc) (d : Deleg) : SameVotes (step1 sc vs s d) s := by
+  unfold step1
+  by_cases hd : d.delegator ≠ sc
+  · rw [if_pos hd]; exact ⟨rfl, rfl⟩
+  · rw [if_neg hd]; cases look vs d.validator <;> exact ⟨rfl, rfl⟩
+
+theorem step2_same (sc : String) (vs : List Val) (ds : List Deleg) (s s' : GovTally.Acc) (vt : Vote)
+    (h : SameVotes s s') : SameVotes (step2 sc vs ds s vt) (step2 sc vs (withoutSC sc ds) s' vt) := by
+  unfold step2
+  by_cases hv : vt.voter = sc
+  · rw [if_pos hv, if_pos hv]; exact h
+  · rw [if_neg hv, if_neg hv]
+    apply inner_without sc vs vt.voter vt.options hv
+    cases look vs vt.voter with
+    | none => exact h
+    | some v => exact ⟨h.1, by simp only [h.2]⟩
+
+/-- `nonvoting_adds_nothing` (voters' part, no hypothesis on shares or slashing): on the same validator set, the
+    ballots the voters contribute (power and options, in order) and the votes recorded for validators are IDENTICAL
+    on the delegation graph with the share-class account's delegations removed.  Share-class stake therefore enters
+    the option totals in exactly one place: as a deduction from the remaining shares of a voting validator
+    (`ballot3`), where it removes precisely the power the validator would otherwise inherit from it. -/
+theorem voter_ballots_indep_of_shareclass (sc : String) (vs : List Val) (ds : List Deleg) (votes : List Vote) :
+    (finalAcc sc vs ds votes).ballots = (finalAcc sc vs (withoutSC sc ds) votes).ballots
+    ∧ (finalAcc sc vs ds votes).vote = (finalAcc sc vs (withoutSC sc ds) votes).vote := by
+  have p1 : ∀ (l : List Deleg) (s : GovTally.Acc), SameVotes (pass1 sc vs l s) s := by
+    intro l
+    induction l with
+    | nil => intro s; exact ⟨rfl, rfl⟩
+    | cons d l ih =>
+      intro s
+      have a := ih (step1 sc vs s d)
+      have b := step1_same sc vs s d
+      exact ⟨a.1.trans b.1, a.2.trans b.2⟩
+  have h0 : SameVotes (pass1 sc vs ds (Acc.init vs)) (pass1 sc vs (withoutSC sc ds) (Acc.init vs)) := by
+    have a := p1 ds (Acc.init vs)
+    have b := p1 (withoutSC sc ds) (Acc.init vs)
+    exact ⟨a.1.trans b.1.symm, a.2.trans b.2.symm⟩
+  have p2 : ∀ (l : List Vote) (s s' : GovTally.Acc), SameVotes s s' →
+      SameVotes (pass2 sc vs ds l s) (pass2 sc vs (withoutSC sc ds) l s') := by
+    intro l
+    induction l with
+    | nil => intro s s' h; exact h
+    | cons v l ih => intro s s' h; exact ih _ _ (step2_same sc vs ds s s' v h)
+  exact p2 votes _ _ h0
+
+/-- without share-class delegations nothing is non-voting: `nonVotingBonded = 0` (and by `rescale_no_nonvoting` the
+    turnout is the voted power itself) -/
+theorem nonVotingBonded_without (sc : String) (vs : List Val) (ds : List Deleg) :
+    nonVotingBonded sc vs (withoutSC sc ds) = Dec.zero := by
+  unfold nonVotingBonded
+  have : ∀ (l : List Deleg) (t : Dec), (withoutSC sc l).foldl (fun t d => if d.delegator ≠ sc then t else
+      match look vs d.validator with
+      | none => t
+      | some v => t.add (power d.shares v)) t = t := by
+    intro l
+    induction l with
+    | nil => intro t; rfl
+    | cons d l ih =>
+      intro t
+      by_cases hd : d.delegator = sc
+      · have e2 : withoutSC sc (d :: l) = withoutSC sc l := by simp [withoutSC, List.filter_cons, hd]
+        rw [e2]; exact ih t
+      · have e2 : withoutSC sc (d :: l) = d :: withoutSC sc l := by simp [withoutSC, List.filter_cons, hd]
+        rw [e2, List.foldl_cons, if_pos hd]; exact ih t
+  exact this ds _
+
+/-- non-vacuity: the graph really contains a share-class delegation that is removed -/
+example : withoutSC "sc" [⟨"sc", "a0", Dec.ofInt 3⟩, ⟨"a0", "a0", Dec.ofInt 3⟩] = [⟨"a0", "a0", Dec.ofInt 3⟩] := by decide
+
 end Sunrise.C16
